@@ -273,7 +273,22 @@ func ruleR13b(c *Check, g *gateInfo, rule string) {
 	okTaint := len(tcallers) == 1
 	for _, f := range tcallers {
 		if _, isCmd := runs[c.P.FuncName(f)]; !isCmd {
-			okTaint = false
+			// a helper of the command: a function of the commands package that only command entry points call
+			helper := engine.InPackage(f, "cmd/cmds")
+			ups := c.G.CallerFuncs(f)
+			if len(ups) == 0 {
+				helper = false
+			}
+			for _, u := range ups {
+				_, upIsCmd := runs[c.P.FuncName(u)]
+				_, topIsCmd := runs[c.P.FuncName(engine.TopFunc(u))]
+				if !upIsCmd && !topIsCmd {
+					helper = false
+				}
+			}
+			if !helper {
+				okTaint = false
+			}
 		}
 	}
 	c.Require(okTaint, rule, "taint-owner", "TaintCache.Taint is called only from a command entry point ("+names(c, tcallers)+")", "TaintCache.Taint is called from "+names(c, tcallers)+"; only the taint command may write taints", "-")
